@@ -11,3 +11,11 @@ import MdVerif.Props.C02Fn
 #print axioms MdVerif.C02Fn.C02_convertXBig_never_err_footnotes
 #print axioms MdVerif.C02Fn.C02_convertXBig_ok_footnotes
 #print axioms MdVerif.C02Fn.C02_convertX_ok_or_stack_fuel_footnotes
+#print axioms MdVerif.C02Fn.C02_tocRun_clean
+#print axioms MdVerif.C02Fn.C02_postX_identity
+#print axioms MdVerif.C02Fn.C02_treeXBig_rootDiv_all
+#print axioms MdVerif.C02Fn.C02_convertXBig_never_err_all_partial
+#print axioms MdVerif.C02Fn.C02_convertXBig_ok_toc_partial
+#print axioms MdVerif.C02Fn.C02_convertXBig_ok_all_partial
+#print axioms MdVerif.C02Fn.C02_domain_without_toc
+#print axioms MdVerif.C02Fn.C02_convertX_ok_or_stack_fuel_all_partial
